@@ -44,7 +44,7 @@ def sw(x, bits=64):
     return x - (1 << bits) if x >> (bits - 1) else x
 
 
-def replay(scratch, rp, ce, params):
+def replay(scratch, rp, ce, params, profiles=(False, True)):
     """returns (reproduced, note, payload)"""
     import importlib
     kind = rp["kind"]
@@ -53,7 +53,7 @@ def replay(scratch, rp, ce, params):
     if fields is None:
         return False, judge, None
     outs = {}
-    for rel in (False, True):
+    for rel in profiles:
         outs["release" if rel else "dev"] = run_native(scratch, fields, release=rel)
     verdicts = {k: judge(v) for k, v in outs.items()}
     ok = any(v[0] for v in verdicts.values())
